@@ -6,3 +6,5 @@ pub mod drive;
 pub mod irdump;
 pub mod canon;
 pub mod cppgen;
+pub mod c05gen;
+pub mod c05inv;
